@@ -1,5 +1,5 @@
 """C03 — the hash depends only on the byte stream, not on how it is fed (structural half)."""
-from ..rules import engine, errflow, generator as gen, witness, vis, summary, beliefs
+from ..rules import engine, errflow, generator as gen, witness, vis, summary, beliefs, data
 
 EXPL = ("Decides: SA-SIBLING: the per-byte regions of update / update_by_iter / update_by_byte (from the rolling-hash update of the "
         "current byte to the back edge) canonicalise to identical MIR, in release, debug and unsafe builds, and each form iterates its "
@@ -37,6 +37,7 @@ def run(ctx):
         if c != "nodef":
             ctx.guard("C03", "buf", lambda: errflow.buf(ctx, prog))
             ctx.guard("C03", "stream", lambda: errflow.stream_common(ctx, prog))
+        ctx.guard("C03", "const values", lambda: data.const_census(ctx, prog, data.CONST_SCOPES["C03"], floor=1))
         ctx.guard("C03", "summaries", lambda: summary.check(ctx, prog, 'Generator::(input_size|new)$|<internals::generate::Generator as core::(default::Default|ops::AddAssign)|generate_easy', floor=2))
         ctx.guard("C03", "path summaries", lambda: summary.check_paths(ctx, prog, 'Generator::(input_size|new)$|<internals::generate::Generator as core::(default::Default|ops::AddAssign)|generate_easy', floor=0))
         if c in ("dbg", "unsafe_dbg", "strict_dbg"):
